@@ -21,5 +21,5 @@ Extraction "../ocaml/gen_c09/model.ml"
   pdiv_structured_multiple_of_degree pdiv_structured_multiple pdiv_shift_factor_ntt_with_tail_length
   pdiv_reduce_by_ntt_friendly_modulus pdiv_reduce_by_structured_modulus
   pdiv_fast_reduce pdiv_fast_reduce_stages pdiv_reduce pdiv_reduce_arm
-  pdiv_clean_divide pdiv_clean_divide_v0 pdiv_clean_divide_v1 pdiv_vanishes_on_coset
+  pdiv_clean_divide pdiv_clean_divide_v0 pdiv_clean_divide_v1 pdiv_clean_divide_v2 pdiv_vanishes_on_coset
   pdiv_shah pdiv_xfe_from_poly pdiv_xfe_inverse.
